@@ -379,9 +379,11 @@ theorem diffs_from_eq_to (fuel : Nat) (o : Obs ℝ) (c : Coord) :
 /-- **the design matrix is the Jacobian.**  For every row whose own exclusion (`d < 1e-6` of
     `bearing_distance`) does not apply, from any well-formed index state: the entry in the column of
     any adjusted unknown `u` — everything the row pushed onto that column, whichever of its roles name
-    `u` (from = to, bs = fs, from = bs …; no case is excluded) — is the derivative of the row's
-    observation function wrt `u`; the entry in the column of an unknown none of its roles names is 0.
-    All 13 classes. -/
+    `u`; the proof makes no case distinction on which roles coincide (bs = fs of an angle, from = to of
+    a height / coordinate difference occur; from = to and from = bs of the bearing types put the sight
+    inside the cut, `C05_below_cut_*`, and s_distance / z_angle throw there) — is the derivative of the
+    row's observation function wrt `u`; the entry in the column of an unknown none of its roles names
+    is 0.  All 13 classes. -/
 theorem C05_design_matrix_is_jacobian (σ : Net ℝ) (fuel : Nat) (obs : List (NObs ℝ)) (s0 : IdxState) (hs0 : s0.WF)
     (res : PassOut ℝ) (hp : passFrom σ fuel obs s0 = .ok res) (r : Nat) (ob : NObs ℝ) (hr : obs[r]? = some ob)
     (hreg : Regular ob.kind (σ.view ob)) :
